@@ -133,6 +133,51 @@ Definition agree_spec_many (powf : num -> num -> num) (cases : list (value * val
   String.concat "" (map (fun c => if String.eqb (show_all_spec powf (fst c) (snd c)) (show_all powf (fst c) (snd c))
                                   then "1" else "0") cases).
 
+(* ... and cheaper still: the implementation's answers are parsed back (checks/c11.py) into value
+   TERMS built from named constants, and compared structurally and exactly with the model's
+   outcomes (numbers by bit pattern, NaN canonical; strings, list elements, record entries in
+   order; function values never occur in C11 results and compare unequal: fail closed) *)
+Fixpoint value_same (a b : value) {struct a} : bool :=
+  match a, b with
+  | VNum x, VNum y => Z.eqb (bits_of_num x) (bits_of_num y)
+  | VBool x, VBool y => Bool.eqb x y
+  | VNull, VNull => true
+  | VStr x, VStr y => String.eqb x y
+  | VList l, VList m =>
+      (fix go (l m : list value) {struct l} : bool :=
+         match l, m with
+         | [], [] => true
+         | x :: l', y :: m' => value_same x y && go l' m'
+         | _, _ => false
+         end) l m
+  | VRec r, VRec s =>
+      (fix go (r s : list (string * value)) {struct r} : bool :=
+         match r, s with
+         | [], [] => true
+         | (k, x) :: r', (k2, y) :: s' => String.eqb k k2 && value_same x y && go r' s'
+         | _, _ => false
+         end) r s
+  | VBuiltin x, VBuiltin y => builtin_eqb x y
+  | _, _ => false
+  end.
+Definition outcome_same (a b : outcome value) : bool :=
+  match a, b with
+  | Ok x, Ok y => value_same x y
+  | Err, Err | ErrDepth, ErrDepth | Panic, Panic | Unmodelled, Unmodelled => true
+  | _, _ => false
+  end.
+Fixpoint all_same (l m : list (outcome value)) : bool :=
+  match l, m with
+  | [], [] => true
+  | x :: l', y :: m' => outcome_same x y && all_same l' m'
+  | _, _ => false
+  end.
+Definition agree_many_v (powf : num -> num -> num) (cases : list (value * value * list (outcome value)))
+  : string :=
+  String.concat "" (map (fun c =>
+    if all_same (map (fun op => run_binop powf op (fst (fst c)) (snd (fst c))) ops23) (snd c)
+    then "1" else "0") cases).
+
 Example show_value_fast_same :
   let vs := [VNum (nb 0x3ff0000000000000); VNum (nb 0xfff0000000000000); VNum nnan; VNum nnzero;
              VNum (nb 0x0000000000000001); VNum (nb 0x7fefffffffffffff); VNum (nb 0x0123456789abcdef);
